@@ -682,6 +682,15 @@ func (w *world) dropFirstSpec(op Op) {
 func (w *world) aPrune(op Op) {
 	w.aOpen()
 	w.ageLock()
+	// what A has rebased to (its own view, exported API only): these are the pruning process's own references
+	upstream := []string{}
+	if src, serr := w.storeA.Sources(context.Background()); serr == nil {
+		for _, tf := range append(append([]chunks.TableFile{}, src.TableFiles...), src.AppendixTableFiles...) {
+			upstream = append(upstream, tf.FileID())
+		}
+	} else {
+		panic(serr)
+	}
 	var stats nbs.PruneStats
 	var err error
 	for try := 0; try < 5; try++ {
@@ -702,7 +711,7 @@ func (w *world) aPrune(op Op) {
 		w.trace[scan].Snap = w.snap()
 		return
 	}
-	lk := w.emit(map[string]any{"k": "PLock", "extra": nbs.VerifC05Upstream(w.storeA)}, 0, false)
+	lk := w.emit(map[string]any{"k": "PLock", "extra": upstream}, 0, false)
 	switch {
 	case hasSkip(stats.Skipped, "could not take the manifest lock"):
 		w.spurious = true
